@@ -104,5 +104,5 @@ TEXT = {
 NOT_APPLICABLE = [
     {'property_id': 'C10', 'reason': 'accounting, strict mode and no-partial-output live in the bin crate (anyhow!/log! expansions, dyn Reader, stderr, exit status); no function within reach of Verus or Kani carries them. The per-record facts are decided under C01/C02.'},
     {'property_id': 'C12', 'reason': 'threads, BGZF/gzip containers, stdin/file transport and cross-process determinism are concurrency and dependency behaviour: Kani has no threads, Verus cannot see noodles/flate2. The uncompressed magic-byte detection fragment is decided under C18.'},
-    {'property_id': 'C13', 'reason': 'the operation order is the statement order inside View::run (bin crate, file I/O at both ends, mask step has no function boundary to put a contract on); marginalize and project are decided as library functions under C04/C03.'},
+    {'property_id': 'C13', 'reason': 'the operation order is the statement order inside View::run (bin crate, file I/O at both ends, mask step has no function boundary to put a contract on); marginalize, project and normalize are decided as library functions under C04/C03/C14.'},
 ]
